@@ -438,6 +438,20 @@ def r12(ctx):
             ctx.check(v == want, "process_message:connected@%s" % caller, "%s calls process_message(%s)" % (caller, expr_str(a)[:30]), bd.where(c.idx), bad_detail="%s calls process_message(is_connected = %s), expected the literal %s: requests submitted in that state are %s" % (caller, expr_str(a)[:40], bool(want), "queued with no session to run them" if not want else "rejected although a session is running"))
     if n < 4:
         raise AnchorError("process_message call sites: %d" % n)
+    # a message stops a SESSION only (is_connected) and only once the channel is no longer enabled; while waiting to be enabled only a
+    # shutdown ends the task - a redundant disable() must not turn every later request into Shutdown
+    pm = prog.abody("master::task::MasterSession::process_message")
+    for b, si, st in agg_sites(pm, r"StopReason$", "Disable"):
+        ctx.require_guards(pm, b.idx, [
+            ("is_connected", g_bool(lambda x: x in (("param", "is_connected"), ("capture", "is_connected")), True)),
+            ("enabled != Yes", g_not_variant(lambda x: mentions_field(x, "enabled"), "Yes")),
+        ], "process_message:Disable", "Err(StopReason::Disable)")
+    we = prog.abody("util::session::Session::wait_for_enabled")
+    ws = ctx.sym(we)
+    sh = [(b, e) for b, si, st, e in ret_sites(we, ws) if e[0] == "agg" and e[2] == "Err"]
+    ctx.check(bool(sh), "wait_for_enabled:Err-site", "wait_for_enabled has a shutdown exit", we.where(line=we.line))
+    for b, e in sh:
+        ctx.require_guards(we, b.idx, [("the stop reason is Shutdown", g_is(lambda x: mentions_call(x, r"process_next_message$"), "Shutdown"))], "wait_for_enabled:only-shutdown", "Err(Shutdown)")
 
 RULES = [
     ("C16.R1", "T2", "command success and SELECT->OPERATE only behind a parsed, faithful echo", r1),
@@ -453,3 +467,40 @@ RULES = [
     ("C16.R11", "T4/T9", "command status codes: unknown octets preserved, equality variant-sensitive (shared with C09.R14); non-READ acceptance tests (shared with C15.R1)", r11),
     ("C16.R12", "T8-const", "requests submitted while no session is running fail at once (process_message(false)); inside a session they are queued (true)", r12),
 ]
+
+
+def r13(ctx):
+    """'the request carries the commands the user added': the ten CommandBuilder::add_g<G>v<V>_u<W> siblings agree - each either
+    extends the header under construction when it has the namesake type, or pushes it (the value taken from self.partial) onto
+    self.headers and starts a header of its own type; none drops the header in progress, none builds another sibling's header type."""
+    prog = ctx.prog
+    fns = [b for b in prog.bodies.values() if re.search(r"request::CommandBuilder::add_g\d+v\d+_u(8|16)$", b.path)]
+    if len(fns) != 10:
+        raise AnchorError("CommandBuilder::add_g*_u*: %d" % len(fns))
+    for bd in fns:
+        m = re.search(r"add_g(\d+)v(\d+)_u(8|16)$", bd.path)
+        want = "G%sV%sU%s" % m.groups()
+        sym = ctx.sym(bd)
+        pushes = []
+        for c in call_sites(bd, r"Vec<.*>::push$|vec::Vec::push$"):
+            e = sym.call_expr(c.term)
+            if mentions_field(e[2][0], "headers"):
+                pushes.append(e[2][1])
+        ok = len(pushes) == 1 and mentions_field(pushes[0], "partial") and mentions_call(pushes[0], r"Option(<.*>)?::take$")
+        ctx.check(ok, "builder:keeps-partial@%s" % want, "the header in progress is pushed onto self.headers when the type changes", bd.where(line=bd.line), bad_detail="%s does not push the header it took from self.partial onto self.headers: the objects added before are silently dropped from the request" % short(bd.path))
+        built = {st.rv["var"] for b, si, st in agg_sites(bd, r"request::CommandHeader$")}
+        ctx.check(built <= {want} , "builder:namesake@%s" % want, "builds CommandHeader::%s only (%s)" % (want, sorted(built)), bd.where(line=bd.line))
+
+
+RULES.append(("C16.R13", "T-sibling", "the CommandBuilder add_* siblings keep the header in progress and build their namesake header type", r13))
+
+
+def r14(ctx):
+    """'every user request completes exactly once within a number of response timeouts': a queued request whose start is cancelled
+    must not strand the requests queued behind it - Association::priority_task keeps popping until a request starts or the queue is
+    empty (C19.R9, shared code)."""
+    import c19
+    c19.r9(ctx)
+
+
+RULES.append(("C16.R14", "T2-loop", "the user request queue is drained until a request starts (shared with C19.R9)", r14))
